@@ -60,6 +60,10 @@ func body(s *simrt.Sim, tier string) {
 		}
 		v := &enccommon.Vault{S: s, Pad: enccommon.WrappedKeyPads[s.Choose(len(enccommon.WrappedKeyPads), "wfkpad")]}
 		desc += fmt.Sprintf(", wrapped key %d bytes", 32+v.Pad)
+		if s.Choose(4, "wrapappend") == 0 {
+			v.WrapAppend = 1 + s.Choose(7, "wrapappendn")
+			desc += fmt.Sprintf(", the wrap function frames the key in place with append(key, %d bytes...)", v.WrapAppend)
+		}
 		opts.WrapKeyFn = v.Wrap
 		src := &simio.Reader{C: s, Data: pt, FailAt: -1}
 		enccommon.Chunking(s, src)
